@@ -211,9 +211,11 @@ Section Run.
                        | s :: r => let '(m1, e1) := run_stmt m s in
                                    let '(m2, e2) := rl m1 r in (m2, e1 ++ e2)
                        end) in
+        (* an undeclared loop variable is an error; the body is still traced *)
+        let r := iter_for (Z.to_nat (hi - lo + 1)) v lo (fun m => body m b) m in
         match lookup v (mvars m) with
-        | None => err m E_undeclared
-        | Some _ => iter_for (Z.to_nat (hi - lo + 1)) v lo (fun m => body m b) m
+        | None => (fst r, EErr E_undeclared :: snd r)
+        | Some _ => r
         end
     end.
 
@@ -242,6 +244,11 @@ Fixpoint run_fuel (fuel : nat) (fs : files) (m : mstate) (l : list stmt) : mstat
 (* a single file without sub-programs *)
 Definition no_call (m : mstate) (_ : N) : mstate * list event := err m E_nofile.
 Definition run (m : mstate) (l : list stmt) : mstate * list event := run_list no_call m l.
+
+(* sub-programs that are not part of the file under test are opaque: the call succeeds and is
+   recorded (ECall) but contributes no events of its own *)
+Definition ext_call (m : mstate) (_ : N) : mstate * list event := (m, []).
+Definition run_ext (m : mstate) (l : list stmt) : mstate * list event := run_list ext_call m l.
 
 (* ---------------- observations on traces ---------------- *)
 
